@@ -34,7 +34,9 @@ TYPE_TAGS = {
 }
 PY_TYPES = {'str': str, 'bytes': bytes, 'bool': bool, 'int': int,
             'float': float, 'tuple': tuple, 'list': list, 'dict': dict,
-            'set': set, 'frozenset': frozenset, 'range': range}
+            'set': set, 'frozenset': frozenset, 'range': range,
+            'bytearray': bytearray, 'memoryview': memoryview,
+            'complex': complex, 'object': object, 'type': type}
 
 PURE_STR_METHODS = {
     'lower', 'upper', 'strip', 'lstrip', 'rstrip', 'replace', 'split',
@@ -792,6 +794,19 @@ def isinstance_(interp, v, t):
             tag = 'int'
     elif isinstance(v, (FuncRef, ClassRef, AbsFunc, ExtRef, ModRef)):
         tag = 'other'
+    if tag == 'other' and isinstance(v, T) and not all(
+            isinstance(ty, ExtRef) and ty.name in ('str', 'bytes')
+            for ty in types):
+        # "neither str nor bytes" is all that is known: tests against any
+        # other type are answered by the value the symbol stands for
+        if all(isinstance(ty, ExtRef) and ty.name in (
+                'str', 'bytes') or isinstance(ty, ExtRef) and (
+                    ty.name in PY_TYPES or
+                    ty.name == 'collections.abc.Mapping')
+               for ty in types):
+            rest = [ty for ty in types if ty.name not in ('str', 'bytes')]
+            return T('isinstance', interp.termify(v),
+                     T('types', *[interp.termify(x) for x in rest]))
     if tag is not None:
         if isinstance(tag, K):
             tag = tag.v
